@@ -65,7 +65,11 @@ func c13RunWrite(c c13W, dst io.Writer) (errs []error, acked int, stickyVio erro
 			if pos+s > c.PlainLen {
 				s = c.PlainLen - pos
 			}
-			n, err := w.Write(plain[pos : pos+s])
+			scratch := append([]byte{}, plain[pos:pos+s]...)
+			n, err := w.Write(scratch)
+			for i := range scratch {
+				scratch[i] = 0x5A
+			}
 			errs = append(errs, err)
 			if failed && err == nil && s > 0 {
 				stickyVio = pbt.Failf("C13/writer-recovers", "a Write succeeded after an earlier Write of the same stream had failed")
@@ -276,6 +280,7 @@ type c13R struct {
 	Pieces   []int        `json:"pieces"`
 	At       int          `json:"at"` // fault offset; -1 = enumerate
 	WithData bool         `json:"withData"`
+	Once     bool         `json:"once"` // the source fails one Read and then recovers
 }
 
 func c13ReadFile(c c13R) ([]byte, []byte, *refage.File) {
@@ -291,7 +296,10 @@ func c13ReadFile(c c13R) ([]byte, []byte, *refage.File) {
 
 func c13CheckOneRead(c c13R, file, plain []byte, st *stats.Run, phase string) error {
 	p := hx.ThePool()
-	fr := &hx.FaultReader{Data: file, At: c.At, WithData: c.WithData, Pieces: c.Pieces}
+	fr := &hx.FaultReader{Data: file, At: c.At, WithData: c.WithData, Pieces: c.Pieces, Once: c.Once}
+	if c.Once {
+		return c13CheckOnceRead(c, fr, file, plain, st, phase)
+	}
 	var in io.Reader = fr
 	if c.Armor {
 		in = armor.NewReader(fr)
@@ -331,6 +339,63 @@ func c13CheckOneRead(c c13R, file, plain []byte, st *stats.Run, phase string) er
 			if n != 0 || e2 == nil || e2 == io.EOF {
 				return pbt.Failf("C13/error-not-sticky", "after the read failure (%v) a further Read returned (%d, %v)", err, n, e2)
 			}
+		}
+	}
+	return nil
+}
+
+// c13CheckOnceRead: a source that fails one Read and then recovers. Whatever
+// the library makes of it, once one of its Reads has failed every later Read
+// fails, nothing but a prefix of the plaintext is ever released, and a clean
+// end of stream is only reached with the complete plaintext.
+func c13CheckOnceRead(c c13R, fr *hx.FaultReader, file, plain []byte, st *stats.Run, phase string) error {
+	p := hx.ThePool()
+	var in io.Reader = fr
+	if c.Armor {
+		in = armor.NewReader(fr)
+	}
+	var id age.Identity
+	for _, r := range c.Recs {
+		if r.Real() {
+			id = p.Identity(r)
+			break
+		}
+	}
+	r, err := age.Decrypt(in, id)
+	st.Case(fr.Hit, stats.HashJSON(c), "r:phase="+phase, "r:once", fmt.Sprintf("r:armor=%v", c.Armor), fmt.Sprintf("r:fault-hit=%v", fr.Hit))
+	if err != nil {
+		if r != nil {
+			return pbt.Failf("C13/reader-with-error", "Decrypt returned a reader together with an error")
+		}
+		return nil
+	}
+	var got []byte
+	failedAt := -1
+	buf := make([]byte, 4096)
+	for i := 0; i < 200000; i++ {
+		n, rerr := r.Read(buf)
+		if failedAt >= 0 {
+			if n != 0 || rerr == nil || rerr == io.EOF {
+				return pbt.Failf("C13/error-not-sticky", "source failed once at offset %d (%s, armor=%v): the stream reported an error after %d plaintext bytes, and a later Read returned (%d, %v): a stream that has failed must keep failing", c.At, phase, c.Armor, failedAt, n, rerr)
+			}
+			if i > failedAt+3 {
+				break
+			}
+			continue
+		}
+		got = append(got, buf[:n]...)
+		if len(got) > len(plain) || !bytes.Equal(got, plain[:len(got)]) {
+			return pbt.Failf("C13/released-not-prefix", "after a transient source failure at offset %d the released bytes are not a prefix of the plaintext", c.At)
+		}
+		if rerr == io.EOF {
+			if !bytes.Equal(got, plain) {
+				return pbt.Failf("C13/read-fault-swallowed", "source failed once at offset %d and the stream ended cleanly after %d of %d plaintext bytes", c.At, len(got), len(plain))
+			}
+			return nil
+		}
+		if rerr != nil {
+			failedAt = i
+			i = failedAt
 		}
 	}
 	return nil
@@ -411,9 +476,9 @@ func c13CheckRead(c c13R, s *pbt.Session) error {
 		return "chunk"
 	}
 	for _, a := range ats {
-		for _, wd := range []bool{false, true} {
+		for _, mode := range []int{0, 1, 2} {
 			cc := c
-			cc.At, cc.WithData = a, wd
+			cc.At, cc.WithData, cc.Once = a, mode == 1, mode == 2
 			if err := c13CheckOneRead(cc, file, plain, s.St, phase(a)); err != nil {
 				s.Report("read-faults", cc, err)
 				return nil
@@ -434,13 +499,16 @@ func TestC13(t *testing.T) {
 	pbt.Each(s, "write-faults", func(yield func(c13W)) {
 		x := []hx.RecSpec{{Kind: "x25519", Idx: 0}}
 		n := 0
-		lens := []int{0, 1, 47, 48, 100, chunk, chunk + 1}
+		lens := []int{0, 1, 47, 48, 100, chunk, chunk + 1, 3*chunk + 1}
 		if s.Thorough() {
 			lens = append(lens, 2*chunk, 2*chunk+1, 3*chunk)
 		}
 		for _, l := range lens {
 			for _, a := range []bool{false, true} {
 				for _, kg := range []bool{false, true} {
+					if l > 2*chunk && (a || kg) && !s.Thorough() {
+						continue // the large case: binary, stop-at-first-error only in the quick tier
+					}
 					if s.Mine(n) {
 						yield(c13W{PlainLen: l, Recs: x, Armor: a, KeepGoing: kg, Call: -1, Byte: -1, Enumerate: true})
 					}
